@@ -82,7 +82,11 @@ func (w *World) RawContent(p string) []byte {
 	}
 	return []byte(s)
 }
-func PathFile(p string) string              { return p + ".bin" }
+// pathDir places an abstract path in a sub-directory (set once, before any world exists, by a check
+// that needs nested directories; every check is a process of its own).
+var pathDir = map[string]string{}
+
+func PathFile(p string) string { return pathDir[p] + p + ".bin" }
 
 func (w *World) logf(format string, a ...interface{}) {
 	w.Log = append(w.Log, fmt.Sprintf(format, a...))
@@ -412,7 +416,9 @@ func (w *World) Chmod(b, p string, x bool) error {
 		flag, mode = "--chmod=+x", 0o755
 	}
 	os.Chmod(filepath.Join(w.Clone, PathFile(p)), mode)
-	if _, err := w.git("update-index", flag, "--", PathFile(p)); err != nil {
+	// (update-index re-reads a path it is given: with the filter off, so that a committed .gitattributes
+	// line cannot turn the mode-only commit into a conversion)
+	if _, err := w.git("-c", "filter.lfs.clean=", "-c", "filter.lfs.process=", "-c", "filter.lfs.required=false", "update-index", flag, "--", PathFile(p)); err != nil {
 		return err
 	}
 	date := w.Now - 3600 + int64(len(w.Commits))*60
@@ -573,6 +579,44 @@ func (w *World) OtherPush(b string, oids []string) error {
 	}
 	_, err := w.Env.MustGit(w.Clone, "update-ref", "-d", "refs/remotes/origin/"+b)
 	return err
+}
+
+// SetAttr applies Migrate's SetAttr(b, which): a commit that adds (on) or removes one .gitattributes
+// line - for p1 in the top-level file, for p2 in the file of p2's own directory - and nothing else.
+func (w *World) SetAttr(b, which string, on bool) error {
+	if err := w.checkout(b, false, ""); err != nil {
+		return err
+	}
+	file, line := ".gitattributes", "/"+PathFile("p1")+" filter=lfs diff=lfs merge=lfs -text\n"
+	if which == "nested" {
+		file, line = filepath.Join(filepath.Dir(PathFile("p2")), ".gitattributes"), filepath.Base(PathFile("p2"))+" filter=lfs diff=lfs merge=lfs -text\n"
+	}
+	full := filepath.Join(w.Clone, file)
+	if on {
+		if err := w.Env.WriteFile(full, []byte(line), 0o644); err != nil {
+			return err
+		}
+		if _, err := w.git("add", "--", file); err != nil {
+			return err
+		}
+	} else {
+		if _, err := w.git("rm", "-q", "--", file); err != nil {
+			return err
+		}
+	}
+	date := w.Now - 3600 + int64(len(w.Commits))*60
+	r := w.Env.GitDate(w.Clone, date, "commit", "-q", "-m", fmt.Sprintf("c%d %s setattr %s=%v", len(w.Commits)+1, b, which, on))
+	if !r.OK() {
+		return fmt.Errorf("setattr commit: %s", r.All())
+	}
+	sha, err := w.head()
+	if err != nil {
+		return err
+	}
+	w.Commits = append(w.Commits, sha)
+	w.Br[b] = len(w.Commits)
+	w.Env.Git(w.Clone, "update-index", "-q", "--refresh")
+	return nil
 }
 
 // OtherDelete applies OtherDelete(b): somebody else deleted the branch on the remote and the server
